@@ -91,6 +91,7 @@ def base_system(b, rng):
     c['assign'] = str(rng.choice(['pair', 'setunset', 'group']))      # the idioms users fill the tables with
     c['diam_idiom'] = str(rng.choice(['direct', 'sweep']))
     c['num_style'] = str(rng.choice(['float', 'np', 'int']))
+    c['reuse'] = bool(rng.random() < 0.3)
     return c
 
 
